@@ -38,6 +38,7 @@ def check_valid(case, ctx):
     sec_c, sec_u = secp.ser_c(pt), secp.ser_u(pt)
     keys = []
     for name, f in (("PrivateKey(int)", lambda: Prv(k)), ("PrivateKey(bytes)", lambda: Prv(k32)),
+                    ("PrivateKey(sec_exp=bytes)", lambda: Prv(sec_exp=k32)), ("parse(key_bytes=)", lambda: Prv.parse(key_bytes=k32)),
                     ("from_int", lambda: Prv.from_int(k)), ("parse", lambda: Prv.parse(k32))):
         st_, pk = call(f)
         if st_ == "exc":
@@ -74,7 +75,7 @@ def check_valid(case, ctx):
             if got_payload != want_payload:
                 raise Violation("C09/valid/wif-payload", "wif(%s) of k=%#x = %s decodes to %s, expected %s" % (
                     flav, k, w, got_payload and got_payload.hex(), want_payload.hex()))
-            st_, back = call(Prv.from_wif, w)
+            st_, back = call(Prv.from_wif, wif_str=w) if compressed else call(Prv.from_wif, w)
             if st_ == "exc":
                 raise Violation("C09/valid/from_wif-raised", "from_wif(%s) [%s, k=%#x] raised %r" % (w, flav, k, back))
             expect_eq("C09/valid/from_wif-roundtrip", "from_wif(wif(%s)) for k=%#x" % (flav, k), bytes(back), k32)
@@ -82,6 +83,19 @@ def check_valid(case, ctx):
             st_, back = call(Prv.from_wif, b58.encode_check(want_payload))
             if st_ == "exc" or bytes(back) != k32:
                 raise Violation("C09/valid/from_wif-roundtrip", "from_wif(reference WIF %s) -> %r" % (flav, back))
+    # the caller's buffer is wiped after construction (zeroize-after-use): the key object must not change
+    for name, mk in (("bytearray", lambda: bytearray(k32)),):
+        buf = mk()
+        st_, sk = call(Prv, buf)
+        if st_ == "ok":
+            for j in range(len(buf)):
+                buf[j] = 0
+            st_, v = call(lambda: (bytes(sk), b58.decode_check(sk.wif()), sk.K.sec()))
+            if st_ == "exc" or v != (k32, b"\x80" + k32 + b"\x01", sec_c):
+                raise Violation("C09/valid/aliases-caller-buffer", "PrivateKey(%s) changed after the caller wiped its buffer: %r"
+                                % (name, v))
+        else:
+            ctx.count("bytearray-secret-refused (not judged)")
     # after the valid key has been built: other encodings of the same integer, and the negated point
     for name, enc in (("00||k (33 bytes)", b"\x00" + k32), ("8 zero bytes || k", b"\x00" * 8 + k32),
                       ("k without leading zeros", k32.lstrip(b"\x00") if k32[0] == 0 else k32[:-1])):
